@@ -124,6 +124,8 @@ func judgeErr(err error, what string) (class string, v *fw.Violation) {
 		return "fatal", fw.V(fatalSig(msg), "internal failure reported as Fatal Error\n%s\n%s", clip(what, 1500), clip(msg, 2500))
 	case *query.ForcedExit:
 		return "exit", nil
+	case *query.UserTriggeredError:
+		return "user_error", nil
 	case query.Error:
 		if !documentedCodes[e.Code()] {
 			return "err", fw.V("undocumented_exit_code", "error code %d is not a documented return code: %s\n%s", e.Code(), clip(msg, 300), clip(what, 1500))
